@@ -61,19 +61,19 @@ type Check struct {
 	Workers         int
 	AtExit          func()
 
-	start    float64
-	deadline float64
-	parts    []*mc.Result
-	knowns   []known
-	replay   *Replay
-	replayed bool
-	worker   string // non-empty: this process is a worker for that part
-	partsLeft int   // > 0: parts still to come (for fair shares of the remaining budget)
-	only     string // non-empty: this process runs just that part for a parent check process ...
-	resOut   string // ... and writes its result there
-	sched    bool   // the part being explored needs a synctest bubble
-	internal []string
-	knownHit map[string]string
+	start     float64
+	deadline  float64
+	parts     []*mc.Result
+	knowns    []known
+	replay    *Replay
+	replayed  bool
+	worker    string // non-empty: this process is a worker for that part
+	partsLeft int    // > 0: parts still to come (for fair shares of the remaining budget)
+	only      string // non-empty: this process runs just that part for a parent check process ...
+	resOut    string // ... and writes its result there
+	sched     bool   // the part being explored needs a synctest bubble
+	internal  []string
+	knownHit  map[string]string
 }
 
 // New creates the check context. args: [tier] [--replay file].
@@ -260,6 +260,11 @@ func (k *Check) Explore(name string, cfg mc.Config, param any, body func(*mc.Ctx
 
 // ExploreProc is Explore with the subtrees explored by worker processes (for code with
 // process-global state or that may take the process down).
+//
+// IsWorker reports whether this process is a worker process of a sharded exploration.
+func (k *Check) IsWorker() bool { return k.worker != "" }
+
+// ExploreProc: see above.
 func (k *Check) ExploreProc(name string, cfg mc.Config, param any, body func(*mc.Ctx)) *mc.Result {
 	if k.only != "" && k.only != name {
 		return &mc.Result{Name: name, Notes: map[string]int64{}}
